@@ -318,6 +318,17 @@ class Ctx:
         """the spec predicate fails on the implementation's own behaviour (C)"""
         self.violations.append({'case': case, 'signature': signature, 'what': what})
 
+    def corpus(self):
+        """minimised past disagreements / violations of this property (run them first)"""
+        d = os.path.join(VERIF, 'corpus', self.prop)
+        res = []
+        if os.path.isdir(d):
+            for f in sorted(os.listdir(d)):
+                if f.endswith('.json'):
+                    c = json.load(open(os.path.join(d, f)))
+                    res.append(c.get('case', c))
+        return res
+
     def time_up(self):
         return self.deadline is not None and time.time() > self.deadline
 
